@@ -48,7 +48,7 @@ pub fn run(run: &Run) {
          username profiles; prepare and enforce on every input. Oracle: independent model (width map from UnicodeData 16.0.0 -> non-empty -> \
          IdentifierClass reference scan -> per-char to_lowercase [mapped profile] -> ICU4X NFC -> non-empty -> RFC 5893 rule) giving the set of \
          allowed results; enforce error == prepare error. Non-trivial: prepare accepts and at least two of {width mapping changed, case mapping \
-         changed, NFC changed, label has R/AL/AN} hold (step order observable); distinct = distinct (profile,input). Plus the deterministic long-input / call-order batteries of DESIGN.md 8.1 that apply to this property (alignment sweeps 0..72 and around 128..65536 bytes, runs and exact counts, sandwiches and multi-megabyte inputs, exhaustive pair sets, plane/byte aliases, hash-colliding pairs back to back, owned arguments with spare capacity); each battery is a finite list enumerated completely and appears as its own section in 'sections'.",
+         changed, NFC changed, label has R/AL/AN} hold (step order observable); distinct = distinct (profile,input). Plus the deterministic long-input / call-order batteries of DESIGN.md 8.1 and 8.2 that apply to this property (extreme scale, mark neighbours, distinct runs with repeats, environment children, thread lifetime, concurrent distinct inputs; alignment sweeps 0..72 and around 128..65536 bytes, runs and exact counts, sandwiches and multi-megabyte inputs, exhaustive pair sets, plane/byte aliases, hash-colliding pairs back to back, owned arguments with spare capacity); each battery is a finite list enumerated completely and appears as its own section in 'sections'.",
     );
     run.assume("K1 (interior NSM rejected by the directionality rule) is a listed known finding: a mismatch is excused only when the model's input to the directionality step has an NSM followed by a non-NSM, the RFC rule accepts and the implementation answers Invalid");
     let profs = [Prof::UserMapped, Prof::UserPreserved];
